@@ -91,3 +91,22 @@ long masked_tail_good(const int32_t* values, long count, int32_t first) {
     if ((cmp & tail) != tail) return __builtin_ctz(~(unsigned)(cmp & tail));
     return count;
 }
+
+/* ---- R10.aligned: alignment-requiring vector loads (props/C15.py run_kernel) */
+void prefix_aligned_bad(int32_t* v, long n) {
+    long i = 0;
+    for (; i + 4 <= n; i += 4) {
+        __m128i x = _mm_load_si128((const __m128i*)(v + i));      /* faults unless v is 16-byte aligned */
+        _mm_storeu_si128((__m128i*)(v + i), _mm_add_epi32(x, x));
+    }
+    for (; i < n; i++) v[i] += v[i];
+}
+void prefix_aligned_good(int32_t* v, long n) {
+    long i = 0;
+    for (; i < n && (((uintptr_t)(v + i)) & 15) != 0; i++) v[i] += v[i];      /* scalar until the address is aligned */
+    for (; i + 4 <= n; i += 4) {
+        __m128i x = _mm_load_si128((const __m128i*)(v + i));
+        _mm_storeu_si128((__m128i*)(v + i), _mm_add_epi32(x, x));
+    }
+    for (; i < n; i++) v[i] += v[i];
+}
